@@ -75,7 +75,10 @@ def real_oracle(prog, out):
         elif o[1] == "TerminatedWorkerError" and plan["action"].startswith("kill:") and f"(-{plan['action'][5:]})" not in o[3] \
                 and "SIG" not in o[3] and "EXIT" not in o[3]:
             v.append(("exit_code_not_named", f"task {i}: {o[3][-200:]}"))
-    if unannounced:
+    # (the probe clauses need the death to precede the probe's submit: the fault may also fire on the probe task itself or
+    # on a worker respawned for it)
+    fired_before_probe = len(m.get("hits_before_probe", m["hits"]).get(key, [])) >= plan["nth"]
+    if unannounced and fired_before_probe:
         pr = m["probe"]
         if pr and pr[0] == "val":
             v.append(("submit_accepted_after_death", f"a submit() after the unannounced death at {plan} was accepted and ran: {pr}"))
